@@ -30,6 +30,7 @@ type Rule struct {
 	Term       string `json:"term"` // exit:N | sig:KILL|TERM|SEGV|ABRT
 	BeforeExec bool   `json:"before_exec"`
 	Stderr     string `json:"stderr"`
+	LingerMs   int    `json:"linger_ms"` // fault: stdout is closed at the fault point, the process fails only this much later
 
 	// delay
 	PreMs   int `json:"pre_ms"`
@@ -40,6 +41,10 @@ type Rule struct {
 
 	// permute
 	Seed int64 `json:"seed"`
+
+	// delay: files that disappear while this child is waiting to start (somebody prunes or repacks the repository during
+	// the scan); removed after the pre_ms pause, just before the real git is started
+	Unlink []string `json:"unlink"`
 }
 
 type Plan struct {
@@ -230,6 +235,11 @@ func main() {
 	}
 	if rule.Mode == "delay" {
 		sleep(rule.PreMs)
+		for _, f := range rule.Unlink {
+			if os.Remove(f) == nil {
+				ev.Delivered += "unlinked " + filepath.Base(f) + " "
+			}
+		}
 	}
 
 	cmd := exec.Command(real, args...)
@@ -340,6 +350,16 @@ func main() {
 		ev.Delivered = fmt.Sprintf("after %d bytes %s", ev.BytesOut, rule.Term)
 		ev.Status = rule.Term
 		ev.TEOF = now()
+		if rule.LingerMs > 0 {
+			// downstream sees end of file now and the failure only later (a child stuck in its exit path); the event is
+			// logged first because the parent may kill us while we linger
+			out.Close()
+			ev.Delivered += fmt.Sprintf(" lingering %d ms", rule.LingerMs)
+			ev.TExit = now()
+			logEvent(plan.Dir, ev)
+			time.Sleep(time.Duration(rule.LingerMs) * time.Millisecond)
+			die(rule.Term)
+		}
 		ev.TExit = now()
 		logEvent(plan.Dir, ev)
 		die(rule.Term)
@@ -367,7 +387,7 @@ func main() {
 				break
 			}
 		}
-		ev.Delivered = fmt.Sprintf("slept %d ms", slept)
+		ev.Delivered += fmt.Sprintf("slept %d ms", slept)
 	default: // record
 		buf := make([]byte, 65536)
 		for {
